@@ -25,4 +25,4 @@ def run(pat, factsfile='/tmp/w/facts.json', excl='link'):
             p=g.prov[x[0]]
             print('  bb%d %s:%s L%s %s %s'%(x[0],p[0].split('::')[-1],p[1],x[3],x[1],x[2]))
 if __name__=='__main__':
-    run(sys.argv[1])
+    run(sys.argv[1], *(sys.argv[2:3]))
